@@ -79,6 +79,12 @@ impl InodeStore {
         inode: Inode,
         path_removed: Option<String>,
     ) -> Option<Arc<OverlayInode>> {
+        // The path no longer names this inode, also when the removal of the inode itself has to
+        // wait for its last reference: give up the number reserved for the path right away.
+        if let Some(path) = path_removed {
+            self.path_mapping.remove(&path);
+        }
+
         let removed = match self.inodes.remove(&inode) {
             Some(v) => {
                 // Refcount is not 0, we have to delay the removal.
@@ -105,9 +111,6 @@ impl InodeStore {
             }
         };
 
-        if let Some(path) = path_removed {
-            self.path_mapping.remove(&path);
-        }
         removed
     }
 
